@@ -325,7 +325,10 @@ func (g *qgen) clause(first bool, o qopts) QClause {
 	case x < 4:
 		c.P = Tm{K: "p", I: t[1]}
 	case x < 5 && temporal:
-		if b := g.reuse("time"); b != "" && r.Chance(0.4) {
+		if b := g.reuse("node", "obj", "pred"); b != "" && !first && r.Chance(o.crossKind) {
+			// the anchor position re-uses a binding that holds nodes, literals or predicates (or NULL from an OPTIONAL)
+			c.P = Tm{K: "pa", ID: string(p.ID()), B: b}
+		} else if b := g.reuse("time"); b != "" && r.Chance(0.4) {
 			c.P = Tm{K: "pa", ID: string(p.ID()), B: b}
 		} else {
 			c.P = Tm{K: "pa", ID: string(p.ID()), B: g.fresh("time")}
